@@ -167,6 +167,9 @@ def main():
         replay(run, f, d["data"]["tv"])
         return run.finish()
     E.selftest()
+    # deriving the equations is not a one-shot operation (code generation, the launcher and a notebook all call
+    # algorithms.eqs()): module-level objects that one builder modifies in place are seen by the next derivation
+    f_again = eqs()
     res = run_tlc("EstimatorStep.tla", f"EstimatorStep_{tier}.cfg", workdir=run.workdir, dump=True)
     run.add_tlc("EstimatorStep", res)
     n = 0; ops = {}
@@ -179,6 +182,9 @@ def main():
         if ops[tv["op"]] == 7:
             run.sample({k: tv[k] for k in tv if k in ("op", "q", "b", "h", "dt", "W", "mag", "tilt", "decl", "incl", "gscale", "yaw")}, limit=8)
         replay(run, f, tv)
+        if tv["op"] == "predict":       # the same vectors on the equations derived a SECOND time in this process
+            replay(run, f_again, tv)
+            run.count("second_derivation_predicts")
     c = run.counts
     for k in ("init_accepted", "init_rejected", "accel_accepted", "accel_rejected", "mag_accepted", "mag_rejected"):
         if c.get(k, 0) == 0:
